@@ -76,7 +76,7 @@ def run():
         ck.extra['docgen_exhaustive_documents'] = n_exh
         judge_docs(docgen.dedupe(docgen.concretise(docgen.simulate(ck, 'DocGenRefsSim.cfg', 60000))))
     # every short line sequence over the alphabets that hold definitions, read by spec/BlockParse.tla (HTML and definition table)
-    judge_docs(blockparse.documents(ck, 3 if ck.tier == 'quick' else 4, laws=False, only=['R1', 'R2', 'R3']))
+    judge_docs(blockparse.documents(ck, 3 if ck.tier == 'quick' else 4, laws=False, only=['R1', 'R2', 'R3', 'R5']))
     ck.extra['binding_selftest'] = 'expected HTML and definition table are compared for equality; see C03 for the corrupted-expectation test'
     ck.exhaustive = True
     ck.assumptions = ['labels are compared through the specification\'s base table (case and inner-whitespace variants of one base; near-duplicates are different bases); Unicode case folding is not covered by the model',
